@@ -107,7 +107,7 @@ def apply_shape(sh, v):
 
 
 # never a zero value: a required attribute outside the view comes back as the zero value of its Go field, which is how "unset" looks there
-PRIM_SAMPLES = {"String": ["abc", "x y"], "Int": [7, 3], "Boolean": [True, True], "Float64": [1.5, 0.25], "Int64": [123456789012, 5], "UInt32": [4000000000, 9]}
+PRIM_SAMPLES = {"String": ["abc", "x y"], "Int": [7, 3], "Boolean": [True, True], "Float64": [1.5, 0.25], "Int64": [123456789012, 5], "UInt32": [40000, 9]}
 
 
 def make_value(design, att, full, salt, depth=0):
